@@ -61,6 +61,14 @@ def ob_range_whole(start: float, step: float, frac: float) -> bool:
     N = h.P("N")
     which = h.P("which")
     exact = h.P("exact")
+    if h.TWIN:
+        # reachability witnesses must survive the replay in doubles: dyadic start / step
+        import math
+
+        if not (start == math.floor(start) and step * 4 == math.floor(step * 4) and frac * 4 == math.floor(frac * 4)):
+            return True
+        if which == "time-samplerate" and not (step == 0.25 or step == 0.5 or step == 1):
+            return True
     stop = start + N * step + (0 if exact else frac * step)
     if which == "range":
         v = D.create_range_dim("x", start, stop, step=step)
@@ -217,8 +225,8 @@ def plan():
                               dict(N=N, which=which, exact=exact), q if quick else ("thorough",),
                               twins=("whole",) if exact else ("fractional",), twin_timeout=200))
     for n in (1, 2, 3, 4):
-        obs.append(Ob("coord-index-n%d" % n, ob_coord_index, "ieee", 900, dict(n=n), q,
-                      twins=("edge", "outside") if n == 1 else ("inside", "edge", "outside"), twin_timeout=200))
+        tw = {1: ("edge", "outside"), 2: ("inside", "edge", "outside"), 3: ("inside", "outside"), 4: ("outside",)}[n]
+        obs.append(Ob("coord-index-n%d" % n, ob_coord_index, "ieee", 900, dict(n=n), q, twins=tw, twin_timeout=600))
     for (nt, nf) in ((1, 1), (2, 3), (3, 2), (3, 3)):
         for order in ("tf", "ft"):
             quick = (nt, nf) in ((2, 3),) or (nt, nf, order) == (3, 2, "ft")
